@@ -1,7 +1,7 @@
 """Whole-tree silent twins: behaviour-preserving rewrites of every repository file at once.
 
 unparse   every file replaced by ast.unparse(ast.parse(src)): comments gone, layout / quoting / parentheses normalised
-rename    every local variable (not parameters) of every simple function gets a new spelling
+rename    every local variable (not parameters, not names an inner function or lambda mentions) of every function gets a new spelling
 log       a `logger.debug(...)` line at the start of every function of every module that has a module-level `logger`
 noann     parameter / return annotations of every function removed, annotated locals turned into plain assignments
           (class-level annotations stay: dataclass fields need them)
@@ -19,10 +19,24 @@ import os
 
 class _Ren(ast.NodeTransformer):
     def visit_FunctionDef(self, node):
-        inner = [n for n in ast.walk(node) if n is not node and isinstance(n, (ast.FunctionDef, ast.AsyncFunctionDef, ast.Lambda, ast.ClassDef, ast.Global, ast.Nonlocal))]
-        if inner:
+        inner = [n for n in ast.walk(node) if n is not node and isinstance(n, (ast.FunctionDef, ast.AsyncFunctionDef, ast.Lambda, ast.ClassDef))]
+        declared = [n for n in ast.walk(node) if isinstance(n, (ast.Global, ast.Nonlocal))]
+        if declared or any(isinstance(n, ast.ClassDef) for n in inner):
             self.generic_visit(node)
             return node
+        # names that an inner function / lambda mentions (as parameter, local or free variable) keep their spelling; the other locals of
+        # the enclosing function are renamed as in a simple function
+        inner_names: set[str] = set()
+        inner_nodes: set[int] = set()
+        for f in inner:
+            for n in ast.walk(f):
+                inner_nodes.add(id(n))
+                if isinstance(n, ast.Name):
+                    inner_names.add(n.id)
+                elif isinstance(n, ast.arg):
+                    inner_names.add(n.arg)
+            if isinstance(f, (ast.FunctionDef, ast.AsyncFunctionDef)):
+                inner_names.add(f.name)
         params = {a.arg for a in node.args.posonlyargs + node.args.args + node.args.kwonlyargs}
         if node.args.vararg:
             params.add(node.args.vararg.arg)
@@ -30,6 +44,8 @@ class _Ren(ast.NodeTransformer):
             params.add(node.args.kwarg.arg)
         assigned = set()
         for n in ast.walk(node):
+            if id(n) in inner_nodes:
+                continue
             if isinstance(n, ast.Name) and isinstance(n.ctx, ast.Store):
                 assigned.add(n.id)
             elif isinstance(n, ast.ExceptHandler) and n.name:
@@ -37,7 +53,7 @@ class _Ren(ast.NodeTransformer):
             elif isinstance(n, (ast.Import, ast.ImportFrom)):
                 for a in n.names:
                     params.add((a.asname or a.name).split(".")[0])
-        ren = {x: x + "_r" for x in assigned - params if not x.startswith("__") and x != "_"}
+        ren = {x: x + "_r" for x in assigned - params - inner_names if not x.startswith("__") and x != "_"}
         for n in ast.walk(node):
             if isinstance(n, ast.Name) and n.id in ren:
                 n.id = ren[n.id]
